@@ -15,7 +15,7 @@ func init() {
 	register(&Property{
 		ID:          "C12",
 		Technique:   "static analysis: ORDER rules over the byte-buffer key encoders (a variable-length segment is copied only after its own length prefix), shape and constant checks on the stop-key constructors, argument agreement of range-bound pairs, exhaustiveness of complementary deletion guards by truth table, expression shape of the integer codec, case-set agreement between the tuple codec's encoder and decoder",
-		Explanation: "Decides structural conditions of key isolation: (K1) in every raw key encoder of package rockredis that fills a buffer through a cursor, each variable-length segment that is not the trailing one is preceded by a 2-byte length field of that same segment (the table of non-KV types, the key of collection sub-keys, zset/list/bitmap keys); (K2) every stop key is 'start key with the last byte + 1' applied to a key whose last byte is the constant separator (the start encoder is called with an empty trailing segment), the separators are constants below 0xff and stop separator = start separator + 1; range deletions use both ends of one collection (shared with C09-N5); (K4) whole-table ranges are built from the same (type, table) on both ends; (K5) the order-preserving integer transform is x XOR signbit on both directions and the tuple codec decodes the flags it encodes; (K6) a collection clear deletes its elements on every size: the per-element and the range deletion guards are complementary. (K7) table isolation in key scans: the node-level SCAN/ADVSCAN commands cut a page at the first key whose extracted table differs (bytes.Equal) from the cursor's table and no table test in node/scan.go is a prefix comparison (same rule as C13-Q2).",
+		Explanation: "Decides structural conditions of key isolation: (K1) in every raw key encoder of package rockredis that fills a buffer through a cursor, each variable-length segment that is not the trailing one is preceded by a 2-byte length field of that same segment (the table of non-KV types, the key of collection sub-keys, zset/list/bitmap keys); (K2) every stop key is 'start key with the last byte + 1' applied to a key whose last byte is the constant separator (the start encoder is called with an empty trailing segment), the separators are constants below 0xff and stop separator = start separator + 1; range deletions use both ends of one collection (shared with C09-N5); (K4) whole-table ranges are built from the same (type, table) on both ends; (K5) the order-preserving integer transform is x XOR signbit on both directions and the tuple codec decodes the flags it encodes; (K6) a collection clear deletes its elements on every size: the per-element and the range deletion guards are complementary. (K7) table isolation in key scans: the node-level SCAN/ADVSCAN commands cut a page at the first key whose extracted table differs (bytes.Equal) from the cursor's table and no table test in node/scan.go is a prefix comparison (same rule as C13-Q2). K5 also covers the float codec (sign bit SET for f >= 0, which includes -0.0; inverted for f < 0; the decoder clears/inverts under the matching test). K7 also requires that a name-derived prefix used in a bytes.HasPrefix test in package rockredis has the table separator appended (index build).",
 		NotDecided:  "EncodeMemCmpKey/Decode round-trip and order preservation for bytes and floats (bytewise numeric reasoning), decoder bounds checks against corrupted stored keys, 2-byte length overflow (CheckKey limits), that table names contain no ':' for the KV type (relied upon; noted).",
 		Assumptions: []string{"the encoders are recognised by their idiom: buf[pos] = c, pos += n, binary.BigEndian.PutUint16(buf[pos:], uint16(len(x))), copy(buf[pos:], x)"},
 		Run:         runC12,
